@@ -1,4 +1,87 @@
+(* C36 — Wildcard matching agrees with git's wildmatch.
+   Only statements here; every proof is [exact <lemma of Proofs*.v>].
+   Model.v:  [wildmatch cf pn p t] = gix_glob::wildmatch(p, t, mode) with cf = IGNORE_CASE and
+             pn = NO_MATCH_SLASH_LITERAL (match_recursive with its recursion limit of 64),
+             [m_bracket]/[m_class] its bracket-expression parser and POSIX class table.
+   Spec.v:   [git_wildmatch cf pn p t] = git 2.39.5 wildmatch(p, t, flags) with cf = WM_CASEFOLD and
+             pn = WM_PATHNAME ([dowild true]); [dowild false] is dowild without the statement
+             `if (t_ch == '\0') break;` at the top of the star loop; [g_bracket]/[g_class] are the
+             '[' case and the class tests over git's sane_ctype table.
+   [nul_free p]: no NUL byte (C strings cannot hold one).  [stars p]: number of '*' bytes.
+   [known_icase cf p]: case folding is on and the pattern has an upper-case ASCII letter or a '-'
+   (the known deviation, findings.txt).  [one_run p]: all '*' of the pattern are adjacent. *)
+From Coq Require Import Lia.
 From GixV.Base Require Import Bytes BytesFacts Outcome.
-From GixV.C36 Require Import Model Spec.
-Example placeholder : wildmatch false false (bs "a*") (bs "abc") = true.
-Proof. vm_compute. reflexivity. Qed.
+From GixV.C36 Require Import Model Spec ProofsBytes ProofsBracket ProofsMain ProofsEarly ProofsTop.
+
+(* The full statement of the property (proved below for one-run patterns; for the others up to the
+   early exit of git's star loop, see wildmatch_is_git_modulo_early_exit_partial). *)
+Definition wildmatch_is_git_full_statement : Prop :=
+  forall cf pn p t, nul_free p = true -> known_icase cf p = false -> stars p < RECURSION_LIMIT ->
+    wildmatch cf pn p t = git_wildmatch cf pn p t.
+
+(* every POSIX class name selects the same bytes as in git, with and without case folding;
+   unknown names abort on both sides *)
+Theorem posix_classes_are_gits : forall cf name t, m_class cf name t = g_class cf name t.
+Proof. exact class_agree. Qed.
+
+(* the byte-level ingredients: the case folding of both sides, the glob specials *)
+Theorem case_folding_is_gits : forall cf c, lc cf c = fold cf c.
+Proof. exact lc_fold. Qed.
+Theorem glob_specials_are_gits : forall c, glob_char c = g_is_glob_special c.
+Proof. exact glob_char_spec. Qed.
+
+(* a bracket expression (negation, ranges, escapes, classes, the `[` / `[:` fallbacks, unterminated
+   forms) is parsed and decided exactly as git does, for every text byte *)
+Theorem bracket_expressions_are_gits : forall cf t p1,
+  nul_free p1 = true -> known_icase cf p1 = false -> m_bracket cf t p1 = g_bracket cf t p1.
+Proof. exact L_bracket. Qed.
+
+(* for every pattern within the recursion bound and outside the known class, gix's matcher returns
+   what git's dowild returns when its star loop does not stop early at the end of the text *)
+Theorem wildmatch_is_git_modulo_early_exit_partial : forall cf pn p t,
+  nul_free p = true -> known_icase cf p = false -> stars p < RECURSION_LIMIT ->
+  wildmatch cf pn p t = res_eqb (dowild false cf pn (S (length p)) (S (S (length p))) p t) Match.
+Proof. exact L_lockstep. Qed.
+
+(* full agreement with git for patterns whose stars are adjacent (`*.c`, `foo*bar`, `a/**/b`, …) *)
+Theorem wildmatch_is_git_one_star_run : forall cf pn p t,
+  nul_free p = true -> known_icase cf p = false -> stars p < RECURSION_LIMIT -> one_run p ->
+  wildmatch cf pn p t = git_wildmatch cf pn p t.
+Proof. exact L_one_run. Qed.
+
+(* full agreement with git for star-free patterns: literals, `?`, `\c`, bracket expressions *)
+Theorem wildmatch_is_git_star_free : forall cf pn p t,
+  nul_free p = true -> known_icase cf p = false -> stars p = 0 ->
+  wildmatch cf pn p t = git_wildmatch cf pn p t.
+Proof. exact L_star_free. Qed.
+
+(* the known deviation is real: with case folding, `[A]` matches `a` in gix only, `[@-a]` matches
+   `x` in git only *)
+Theorem wildmatch_is_git_refuted_icase : exists p t, nul_free p = true /\ stars p = 0 /\
+  wildmatch true false p t = true /\ git_wildmatch true false p t = false.
+Proof. exact L_refuted_icase. Qed.
+Theorem wildmatch_is_git_refuted_icase_range : exists p t, nul_free p = true /\ stars p = 0 /\
+  wildmatch true false p t = false /\ git_wildmatch true false p t = true.
+Proof. exact L_refuted_icase_range. Qed.
+
+(* the recursion bound in the statement is needed: 64 nested stars match in git, not in gix *)
+Theorem recursion_bound_is_tight :
+  let p := repeat_bytes 64 (bs "*a") in let t := repeat_bytes 64 (bs "a") in
+  stars p = 64 /\ wildmatch false false p t = false /\ git_wildmatch false false p t = true.
+Proof. exact L_bound_is_tight. Qed.
+
+(* non-vacuity *)
+Example hyps_satisfiable_fold :
+  let p := bs "a/**/[b-d]*.[ch]" in
+  nul_free p = true /\ known_icase false p = false /\ stars p < RECURSION_LIMIT.
+Proof. vm_compute. repeat split; lia. Qed.
+Example hyps_satisfiable_one_run :
+  let p := bs "src/**/[[:alpha:]_]?.rs" in
+  nul_free p = true /\ known_icase true p = false /\ stars p < RECURSION_LIMIT /\ one_run p /\
+  wildmatch true true p (bs "SRC/x/y/ab.RS") = true /\ git_wildmatch true true p (bs "SRC/x/y/ab.RS") = true.
+Proof. vm_compute. repeat split; lia. Qed.
+Example star_free_example :
+  wildmatch false true (bs "[[:digit:]]?\*[!a-c]") (bs "7x*d") = true /\
+  git_wildmatch false true (bs "[[:digit:]]?\*[!a-c]") (bs "7x*d") = true.
+Proof. vm_compute. split; reflexivity. Qed.
